@@ -39,7 +39,8 @@ ASSUMPTIONS = [
     "builds are atomic per-target steps; the taint store is the local cache backend",
 ]
 
-FAMILIES_QUICK = [("taint", 16, {}), ("nocache", 12, {}), ("disabled", 10, {}), ("taint", 5, {"minimal": True})]
+FAMILIES_QUICK = [("taint", 9, {}), ("nocache", 7, {}), ("disabled", 6, {}), ("taintdis", 7, {}), ("tool", 6, {}),
+                  ("outless", 5, {"minimal": True}), ("taint", 4, {"minimal": True}), ("nocache", 4, {"minimal": True})]
 FAMILIES_THOROUGH = [(f, n * 15, kw) for f, n, kw in FAMILIES_QUICK]
 
 
@@ -86,11 +87,26 @@ def run(ctx):
                               {"kind": "oracle", "oracle": "real clean build", "history": h, "described": H.describe(h), "detail": fails[0]},
                               signature="nocache-output-swap-not-propagated")
             continue
+        if "tool" in h.get("tags", []):
+            # a (no-cache) target whose bin_output is also its input: an edit of the script must reach the dependants
+            fails, _ = H.clean_oracle(ctx, h, r["real"], "c13clean")
+            if fails:
+                cnt["oracle_failures"] += 1
+                small = H.truncate(h, fails[0]["build"] + 1)
+                ctx.violation("a dependant of a re-executed target whose output changed was not invalidated (stale output after a successful build)",
+                              {"kind": "oracle", "oracle": "real clean build", "history": small, "described": H.describe(small), "detail": fails[0]},
+                              signature="dependant-not-invalidated-although-output-changed")
         for b in H.walk(h, r["real"]):
             o, ws, s = b["obs"], b["ws"], b["step"]
             sel = H.selected(ws, s["patterns"])
             ex = set(o["executed"])
             pre_t = set(o["pre_tainted"])
+            # `grog taint <patterns>` must have marked every target the patterns select
+            for l in H.matched_targets(ws, b["taints_since"]):
+                if l not in pre_t and l in ws["targets"]:
+                    cnt["taint_cmds_checked"] = cnt.get("taint_cmds_checked", 0) + 1
+                    fail("`grog taint` did not taint a target its patterns select (the next build serves it from the cache)", h, b,
+                         "taint-command-skipped-selected-target", target=l, patterns=b["taints_since"])
             # dependencies of l all succeeded <=> l was reached; with keep-going and no failing commands in these families every selected target is reached
             if not o["ok"]:
                 continue
